@@ -136,6 +136,15 @@ class Env(e1run.E1Env):
 
         return run, classes
 
+    def task_shared_churn(self, tag, classes, order):
+        """Renders through a small template cache of classes that OTHER tasks render too (same cache keys)."""
+
+        def run():
+            self.tags[threading.get_ident()] = tag
+            return "".join(e1run.normalise(classes[i % len(classes)].render(render_dependencies=False)) for i in order)
+
+        return run, classes
+
     def task_first_media(self, tag):
         self.k += 1
         n = self.k
@@ -183,9 +192,17 @@ def make_workload(env, rng, ntasks, kinds=None):
     kinds = kinds or [rng.choice(KINDS) for _ in range(ntasks)]
     if "failing" not in kinds and "program" not in kinds and rng.random() < 0.7:
         kinds[0] = "program"
+    shared = None
     for i, kind in enumerate(kinds):
         tag = "abc"[i]
-        if kind == "program":
+        if kind == "shared_churn":
+            if shared is None:
+                env.k += 1
+                shared = [type(f"C07Shared{env.k}_{j}", (env.Component,), {"template": f"<s>{env.k}-{j} {{{{ 1|add:{j} }}}}</s>"}) for j in range(3)]
+            order = [[0], [0, 1], [1, 0, 2], [0, 1, 0], [2, 0]][rng.randrange(5)] if i else rng.choice([[0], [0, 1], [1, 0]])
+            fn, h = env.task_shared_churn(tag, shared, order)
+            keep.append(("classes", h))
+        elif kind == "program":
             prog = gen_prog(rng)
             fn, h = env.task_program(prog, tag)
             keep.append(("built", h))
@@ -287,6 +304,17 @@ def known_classifier(case, tid, r, s, run):
     return None
 
 
+def shared_site_predicate(kinds):
+    """Yield points in the modules that hold the process-global state THIS workload touches: the template cache for
+    cache-churn tasks, the provide registries for component programs, media resolution for first-media tasks."""
+    files = {"template.py", "cache.py"}
+    if any(k in ("program", "failing") for k in kinds):
+        files.add("provide.py")
+    if "media" in kinds:
+        files = {"component_media.py"} if all(k == "media" for k in kinds) else files | {"component_media.py"}
+    return lambda where: where.split(":")[0] in files
+
+
 def explore_workload(env, rec, rng, spec, wi):
     ntasks = spec["ntasks"]
     cache_size = rng.choice([1, 2, 128])
@@ -335,6 +363,47 @@ def explore_workload(env, rec, rng, spec, wi):
                     k1 = rng.randint(1, max(1, run0.points_per_task[first]))
                     k2 = k1 + rng.randint(1, max(1, total_points - k1))
                     plans.append(("p2", first, {k1: order[1], k2: first}, order))
+            elif spec["strategy"] == "sites3":
+                # up to three context switches, all of them at shared-state sites: A until its n1-th site -> B until its
+                # m-th site -> A until its n2-th site -> B ... (enumerated when small, sampled otherwise)
+                is_shared_site = shared_site_predicate(kinds)
+                nsites = []
+                for tid in range(ntasks):
+                    nsites.append(sum(1 for _, t, where in run0.trace if t == tid and is_shared_site(where)))
+                rec.count("shared_state_sites_in_serial_runs", sum(nsites))
+                pairs_ab = [(a, b) for a in range(ntasks) for b in range(ntasks) if a != b]
+                total = sum(nsites[a] + nsites[a] * (nsites[a] - 1) // 2 * nsites[b] for a, b in pairs_ab)
+                rec.maxi("max:sites3_schedule_space", total)
+                allp = []
+                if total <= spec["max_schedules"]:
+                    rec.count("sites3_exhaustive_workloads")
+                    for a, b in pairs_ab:
+                        for n1 in range(1, nsites[a] + 1):
+                            allp.append((a, [(a, n1, b)]))
+                            for m in range(1, nsites[b] + 1):
+                                for n2 in range(n1 + 1, nsites[a] + 1):
+                                    allp.append((a, [(a, n1, b), (b, m, a), (a, n2, b)]))
+                else:
+                    rec.count("sites3_sampled_workloads")
+                    seen = set()
+                    for _ in range(spec["max_schedules"] * 3):
+                        if len(allp) >= spec["max_schedules"]:
+                            break
+                        a, b = rng.choice(pairs_ab)
+                        if nsites[a] < 1:
+                            continue
+                        n1 = rng.randint(1, nsites[a])
+                        if rng.random() < 0.15 or nsites[b] < 1 or n1 >= nsites[a]:
+                            pl = [(a, n1, b)]
+                        else:
+                            pl = [(a, n1, b), (b, rng.randint(1, nsites[b]), a), (a, rng.randint(n1 + 1, nsites[a]), b)]
+                        key = (a, tuple(pl))
+                        if key not in seen:
+                            seen.add(key)
+                            allp.append((a, pl))
+                for first, pl in allp:
+                    order = [first] + [t for t in range(ntasks) if t != first]
+                    plans.append(("sites", first, pl, order))
             else:
                 for _ in range(spec["max_schedules"]):
                     plans.append(("pct", rng.randrange(ntasks), rng.random(), None))
@@ -343,6 +412,9 @@ def explore_workload(env, rec, rng, spec, wi):
                 if kind == "pct":
                     decide = sched.pct(random.Random(arg), ntasks, rng.randint(3, 6), max(total_points, 10))
                     sched_desc = {"pct_seed": arg}
+                elif kind == "sites":
+                    decide = sched.preempt_sites(arg, order, is_shared_site)
+                    sched_desc = {"first": first, "sites": [list(x) for x in arg]}
                 else:
                     decide = sched.preempt_at(arg, order)
                     sched_desc = {"first": first, "preempt": {str(k): v for k, v in arg.items()}}
@@ -421,7 +493,11 @@ def plan(tier, seed):
         for i in range(4):
             shards.append({"name": f"pct_{i:02d}", "strategy": "pct", "ntasks": 3, "workloads": 4, "max_schedules": 150, "idx": i})
         shards.append({"name": "stress", "strategy": "stress", "workloads": 6, "reps": 60, "idx": 0})
+        for i in range(2):
+            shards.append({"name": f"s3_{i:02d}", "strategy": "sites3", "ntasks": 2, "workloads": 3, "max_schedules": 1200, "idx": i, "kinds": [("shared_churn", "shared_churn"), ("churn", "shared_churn"), ("shared_churn", "program")]})
     else:
+        for i in range(6):
+            shards.append({"name": f"s3_{i:02d}", "strategy": "sites3", "ntasks": 2, "workloads": 4, "max_schedules": 15000, "idx": i, "kinds": [("shared_churn", "shared_churn"), ("shared_churn", "shared_churn"), ("churn", "shared_churn"), ("shared_churn", "program")]})
         for i in range(16):
             shards.append({"name": f"p1_{i:02d}", "strategy": "preempt1", "ntasks": 2, "workloads": 10, "max_schedules": 4000, "idx": i})
         for i in range(8):
